@@ -122,6 +122,16 @@ def lax_kind_finding():
     return type(R(1.5)) is int
 
 
+def abstract_generic_finding():
+    import warnings
+    from typing import Sequence
+    from utype import Rule
+    from utype.utils.transform import type_transform
+    warnings.simplefilter("ignore")
+    r = type_transform(["1", "2"], Rule.parse_annotation(Sequence[int]))
+    return list(r) == ["1", "2"]
+
+
 def conf_suite(res, tier, seed):
     rng = random.Random(seed * 37 + 101)
     n = 6000 if tier == "quick" else 100000
@@ -345,7 +355,7 @@ def main(tier, seed):
     conf_suite(res, tier, seed)
     subclass_suite(res, tier, seed)
     originless_suite(res, tier, seed)
-    findings.replay_all(res, PID, {"C01-lax-kind": lax_kind_finding})
+    findings.replay_all(res, PID, {"C01-lax-kind": lax_kind_finding, "C01-abstract-generic-args": abstract_generic_finding})
     res.violations = res.violations[:3]
     return core.finish(res, "make -C coq Props/C01.vo && coqc (Print Assumptions audit)", "see suites", search=None,
                        level_note="C01_conform is proved for the whole parse calculus of Model/Parse.v (tied to /repo by the parse "
